@@ -179,6 +179,7 @@ pub struct DhcpStats {
     pub client_msgs_lost: u64,
     pub acks_delivered: u64,
     pub valid_acks: u64,
+    pub definite_acks: u64,
     pub invalid_acks: u64,
     pub naks_delivered: u64,
     pub offers_delivered: u64,
@@ -211,6 +212,8 @@ struct Pending {
     frame: Vec<u8>,
     label: String,
     is_arp: bool,
+    /// a DHCPACK exactly as a faithful server builds it (one option of each kind, explicit lease)
+    pristine: bool,
 }
 
 #[derive(Clone, Debug)]
@@ -239,6 +242,7 @@ pub struct DhcpSim {
     // ---- oracle state
     last_tx: Option<ClientTx>,
     e_bound: Option<Micros>,
+    last_msg_pristine: bool,
     configured: Option<([u8; 4], u8)>,
     configured_at: Micros,
     phase_rebind_seen: bool,
@@ -308,6 +312,7 @@ impl DhcpSim {
             old_xids: Vec::new(),
             last_tx: None,
             e_bound: None,
+            last_msg_pristine: false,
             configured: None,
             configured_at: 0,
             phase_rebind_seen: false,
@@ -469,13 +474,14 @@ impl DhcpSim {
         };
         let ip_dst = if ip_dst == [0, 0, 0, 0] { [255, 255, 255, 255] } else { ip_dst };
         let frame = self.wrap(&m, defect, ip_dst, eth_dst, rng);
+        self.last_msg_pristine = kind == dhcp::ACK && defect == Defect::None && lp.lease.is_some();
         let label = format!("{}{}", m.describe(), if defect == Defect::None { String::new() } else { format!(" <{:?}>", defect) });
         (frame, label)
     }
 
     fn schedule(&mut self, at: Micros, frame: Vec<u8>, label: String, is_arp: bool) {
         self.seq += 1;
-        self.pending.push(Pending { at, seq: self.seq, frame, label, is_arp });
+        self.pending.push(Pending { at, seq: self.seq, frame, label, is_arp, pristine: false });
     }
 
     fn draw_lease(&self, rng: &mut Rng) -> LeaseParams {
@@ -548,16 +554,20 @@ impl DhcpSim {
 
     fn emit_to_client(&mut self, rng: &mut Rng, delay: Micros, frame: Vec<u8>, label: String) {
         if rng.below(1000) < self.cfg.s2c_loss_pm as u64 {
+            self.last_msg_pristine = false;
             self.stats.server_msgs_lost += 1;
             self.log(format!("   (lost on the way to the client: {})", label));
             return;
         }
         let at = self.now + delay;
+        let pristine = std::mem::replace(&mut self.last_msg_pristine, false);
         if rng.below(1000) < self.cfg.dup_pm as u64 {
             let d2 = *rng.pick(&[0i64, 1, 500_000, 20_000_000, 4_000_000_000]);
             self.schedule(at + d2, frame.clone(), format!("{} (dup)", label), false);
+            self.pending.last_mut().unwrap().pristine = pristine;
         }
         self.schedule(at, frame, label, false);
+        self.pending.last_mut().unwrap().pristine = pristine;
     }
 
     // ------------------------------------------------------------ oracle on inbound frames
@@ -666,6 +676,7 @@ impl DhcpSim {
             let mut batch_acks: Vec<AckOk> = Vec::new();
             let mut batch_invalid: Vec<(String, String, String)> = Vec::new();
             let mut batch_desc: Vec<String> = Vec::new();
+            let alone = due.iter().filter(|p| !p.is_arp).count() == 1;
             for p in due {
                 if !p.is_arp {
                     self.stats.server_msgs_delivered += 1;
@@ -675,7 +686,24 @@ impl DhcpSim {
                             self.stats.acks_delivered += 1;
                             self.stats.valid_acks += 1;
                             let e = now.saturating_add(a.bound_us);
-                            self.e_bound = Some(self.e_bound.map_or(e, |x| x.max(e)));
+                            // "the most recent such ACK": an ACK that a bound client is certain to take
+                            // (built by the faithful server path, matching the xid of the client's last
+                            // message, alone in this hand-over, source not a broadcast address of the
+                            // leased subnet) replaces every earlier grant; any other valid ACK may or
+                            // may not be taken, so it can only raise the bound.
+                            let src_ok = {
+                                let (s, m, a4) = (self.cfg.server_ip, self.cfg.mask, self.cfg.pool);
+                                let bc: Vec<u8> = (0..4).map(|k| a4[k] | !m[k]).collect();
+                                s[..] != bc[..] && s != [255, 255, 255, 255] && s[0] < 224 && s != [0, 0, 0, 0]
+                            };
+                            if p.pristine && alone && self.configured.is_some() && src_ok && !self.unclean {
+                                // (in runs without guaranteed neighbor resolution a renewal may fail to leave the
+                                // host after it drew a new xid: the harness does not know the client's xid then)
+                                self.stats.definite_acks += 1;
+                                self.e_bound = Some(e);
+                            } else {
+                                self.e_bound = Some(self.e_bound.map_or(e, |x| x.max(e)));
+                            }
                             self.phase_rebind_seen = false;
                             self.ack_history.push(format!("t={}us VALID {} (lease bound {}us)", now, m.describe(), a.bound_us));
                             batch_acks.push(a);
